@@ -2359,6 +2359,7 @@ pub fn flat_bm25_search(
     batch: RecordBatch,
     doc_col: &str,
     query_tokens: &Tokens,
+    operator: Operator,
     tokenizer: &mut Box<dyn LanceTokenizer>,
     scorer: &mut MemBM25Scorer,
 ) -> std::result::Result<RecordBatch, DataFusionError> {
@@ -2385,6 +2386,15 @@ pub fn flat_bm25_search(
                 .and_modify(|count| *count += 1)
                 .or_insert(1);
         }
+        if operator == Operator::And
+            && query_tokens
+                .into_iter()
+                .any(|token| !doc_token_count.contains_key(token))
+        {
+            // AND: every query token must occur in the document
+            scores.push(0.0);
+            continue;
+        }
         let mut score = 0.0;
         for token in query_tokens {
             let freq = doc_token_count.get(token).copied().unwrap_or_default() as f32;
@@ -2406,6 +2416,7 @@ pub fn flat_bm25_search_stream(
     input: SendableRecordBatchStream,
     doc_col: String,
     query: String,
+    operator: Operator,
     index: &Option<InvertedIndex>,
 ) -> SendableRecordBatchStream {
     let mut tokenizer = match index {
@@ -2444,7 +2455,14 @@ pub fn flat_bm25_search_stream(
     let stream = input.map(move |batch| {
         let batch = batch?;
 
-        let batch = flat_bm25_search(batch, &doc_col, &tokens, &mut tokenizer, &mut bm25_scorer)?;
+        let batch = flat_bm25_search(
+            batch,
+            &doc_col,
+            &tokens,
+            operator,
+            &mut tokenizer,
+            &mut bm25_scorer,
+        )?;
 
         // filter out rows with score 0
         let score_col = batch[SCORE_COL].as_primitive::<Float32Type>();
